@@ -65,6 +65,15 @@ func newStringExtractor(position stringExtractorPosition, patternParts []string,
 			return emptyExtractor, fmt.Errorf("patternParts[1]: %w", err)
 		}
 	}
+	if validCharTable == nil {
+		// without a char table, the far side of the label can only be found by a boundary
+		if position == extractFromStart && len(rightBoundary) == 0 {
+			return emptyExtractor, fmt.Errorf("wildcard '*' at the end needs a right boundary")
+		}
+		if position == extractFromEnd && len(leftBoundary) == 0 {
+			return emptyExtractor, fmt.Errorf("wildcard '*' at the beginning needs a left boundary")
+		}
+	}
 	return stringExtractor{
 		position:   position,
 		leftBound:  leftBoundary,
